@@ -23,6 +23,7 @@ import Driver.InspectorHooks
 import Driver.Static
 import Driver.HandlerCfg
 import Driver.Frame
+import Driver.Ether
 /-! Line-protocol driver: one request per line on stdin, one reply per line on stdout.
 Stateless components are dispatched on the first token. A stateful component `X` adds a field
 `x : Driver.X.St := Driver.X.St.init` to `DState`, resets it on `begin x …` and threads it through
@@ -44,6 +45,7 @@ structure DState where
   hooks : Driver.InspectorHooks.St := Driver.InspectorHooks.St.init
   hcfg : Driver.HandlerCfg.St := Driver.HandlerCfg.St.init
   frame : Driver.Frame.St := Driver.Frame.St.init
+  ether : Driver.Ether.St := Driver.Ether.St.init
   -- stateful component states go here
 
 def step (st : DState) (line : String) : DState × String :=
@@ -88,6 +90,9 @@ def step (st : DState) (line : String) : DState × String :=
   | "hcfg" :: r => let (s, out) := Driver.HandlerCfg.handle st.hcfg r; ({ st with hcfg := s }, out)
   | "begin" :: "frame" :: r => let (s, out) := Driver.Frame.begin r; ({ st with frame := s }, out)
   | "frame" :: r => let (s, out) := Driver.Frame.handle st.frame r; ({ st with frame := s }, out)
+  | "begin" :: "ether" :: r => let (s, o) := Driver.Ether.begin r; ({ st with ether := s }, o)
+  | "e" :: r => let (s, o) := Driver.Ether.handle st.ether r; ({ st with ether := s }, o)
+  | "etx" :: r => (st, Driver.Ether.etx r)
   | _ => (st, "bad-op")
 
 partial def loop (hin hout : IO.FS.Stream) (st : DState) : IO Unit := do
